@@ -130,6 +130,7 @@ func checkC10(c *Ctx) {
 	queuedEvents(c, "C10")
 	eventDuringFlush(c, "C10")
 	c10RangeChange(c)
+	c10Entries(c)
 	duplexStress(c, "C10") // events and responses written to one connection at the same time must stay decryptable: a garbled event is a lost event
 	n := c.Pick(32, 1500)
 	type res struct{ line, impl string }
